@@ -1,4 +1,5 @@
 import TeleportModel.Model.Lifecycle
+import TeleportModel.Proofs.C09
 /-
 C18 — "Client lifecycle installs a usable client or changes nothing": theorems about Model/Lifecycle.lean
 (the repaired behaviour, see fixes/C18-*.diff), for all states, all proposals / updates and all histories.
@@ -792,3 +793,117 @@ example : get (run init [.prop { kind := .create, name := "abc", cs := some exTs
 end Examples
 
 end TM.Lifecycle
+
+/-! ### BSC: the pending validator set installed with the client is the one the installed epoch header announces,
+and it is the set in force once the updates have crossed the switch point (epoch + ⌊len/2⌋)
+
+Stated on `TM.Bsc` (Model/Bsc.lean, the model of the BSC client's `Initialize` / `CheckHeaderAndUpdateState` that C09
+ties to the code). In `TM.Lifecycle` the same record is `Key.pv ↦ CState.x2`; the harness computes `x2` BY CONSTRUCTION
+from the extra data of the installed header (own parsing), so the differential run compares the real store's pending
+set with the announced list right after every install. -/
+namespace TM.Bsc
+
+/-- `k` accepted updates, each with the next header (the number check of `verifyCascadingFields` modulo 2^64) -/
+inductive NextRun (env : Env) (cs0 : ClientState) (st0 : Store) : Nat → ClientState → Store → Prop
+  | nil : NextRun env cs0 st0 0 cs0 st0
+  | step {k : Nat} {cs cs' : ClientState} {st st' : Store} {bt : Nat} {h : Header} :
+      NextRun env cs0 st0 k cs st → updateClient Fix.fixed env cs st bt h = .ok (cs', st') →
+      h.number = cs.head.number + 1 → NextRun env cs0 st0 (k + 1) cs' st'
+
+theorem install_pending_announced {env : Env} {cs0 cs : ClientState} {st : Store}
+    (hc : createClient env cs0 = .ok (cs, st)) :
+    cs = cs0 ∧ parseValidators cs0.head.extra = some st.pending ∧
+    ∃ signer, env.recover cs0.chainId cs0.head = some signer ∧ st.recents = [⟨cs0.head.rev, cs0.head.number, signer⟩] := by
+  obtain ⟨hcs, _, _, signer, pending, hr, _, hp, hst⟩ := createClient_ok hc
+  subst hst
+  exact ⟨hcs, hp, signer, hr, rfl⟩
+
+theorem add_mod_of_mod_zero {n e j : Nat} (hn : n % e = 0) (hj : j < e) : (n + j) % e = j := by
+  obtain ⟨q, hq⟩ := Nat.dvd_of_mod_eq_zero hn
+  subst hq
+  rw [Nat.mul_add_mod, Nat.mod_eq_of_lt hj]
+
+theorem nextRun_inv {env : Env} {cs0 : ClientState} {st0 : Store} {k : Nat} {cs : ClientState} {st : Store}
+    (hrun : NextRun env cs0 st0 k cs st) (he : cs0.head.number % cs0.epoch = 0) (hk : k < cs0.epoch) :
+    cs.head.number = cs0.head.number + k ∧ cs.epoch = cs0.epoch ∧ st.pending = st0.pending ∧
+    cs.validators = if k < cs0.validators.length / 2 then cs0.validators else
+                    if cs0.validators.length / 2 = 0 then cs0.validators else st0.pending := by
+  induction hrun with
+  | nil =>
+    refine ⟨rfl, rfl, rfl, ?_⟩
+    by_cases h : 0 < cs0.validators.length / 2
+    · rw [if_pos h]
+    · rw [if_neg h, if_pos (by omega)]
+  | @step j cs cs' st st' bt h _ hacc hnum ih =>
+    obtain ⟨ihn, ihe, ihp, ihv⟩ := ih (by omega)
+    obtain ⟨signer, pending, _, hp, hcs', _, hpe, _⟩ := step_effect hacc
+    have hmod : h.number % cs.epoch = j + 1 := by
+      rw [hnum, ihn, ihe, Nat.add_assoc]; exact add_mod_of_mod_zero he hk
+    have hpend : pending = st.pending := by
+      unfold pendingAfter at hp
+      have : ¬ (h.number % cs.epoch = 0) := by omega
+      simp only [this, ↓reduceIte, Option.some.injEq] at hp; exact hp.symm
+    refine ⟨by rw [hcs']; simp only; omega, by rw [hcs']; exact ihe, by rw [hpe, hpend]; exact ihp, ?_⟩
+    rw [hcs']; simp only [hmod]
+    by_cases h1 : j + 1 < cs0.validators.length / 2
+    · have hj : j < cs0.validators.length / 2 := by omega
+      rw [if_pos hj] at ihv
+      rw [ihv, if_pos h1]
+      have : ¬ (j + 1 = cs0.validators.length / 2) := by omega
+      simp [this]
+    · rw [if_neg h1]
+      by_cases h0 : cs0.validators.length / 2 = 0
+      · -- a one-validator set: the switch point is the epoch header itself, never reached inside the epoch
+        rw [if_pos h0]
+        have : ¬ (j < cs0.validators.length / 2) := by omega
+        rw [if_neg this, if_pos h0] at ihv
+        rw [ihv]
+        have : ¬ (j + 1 = cs0.validators.length / 2) := by omega
+        simp [this]
+      · rw [if_neg h0]
+        by_cases hj : j < cs0.validators.length / 2
+        · rw [if_pos hj] at ihv
+          have : j + 1 = cs0.validators.length / 2 := by omega
+          rw [ihv]; simp only [this, ↓reduceIte]; rw [hpend, ihp]
+        · rw [if_neg hj, if_neg h0] at ihv
+          rw [ihv, hpend, ihp]
+          split <;> rfl
+
+/-- **the announced set takes over** — a BSC client installed (create / toggle / upgrade all run the same
+    `Initialize` / `UpgradeState` guards and writes) at an epoch header with `len` validators, ⌊len/2⌋ ≥ 1, then
+    updated with `k` valid next headers, ⌊len/2⌋ ≤ k < epoch: the authorised validator list is EXACTLY the list the
+    installed header's extra data announces (and before the switch point it is still the installed list). -/
+theorem announced_set_in_force {env : Env} {cs0 cs csk : ClientState} {st stk : Store} {k : Nat}
+    (hc : createClient env cs0 = .ok (cs, st)) (hrun : NextRun env cs st k csk stk) (hk : k < cs0.epoch) :
+    (k < cs0.validators.length / 2 → csk.validators = cs0.validators) ∧
+    (1 ≤ cs0.validators.length / 2 → cs0.validators.length / 2 ≤ k →
+        parseValidators cs0.head.extra = some csk.validators ∧ stk.pending = csk.validators) := by
+  obtain ⟨hcs, _, hep, _⟩ := createClient_ok hc
+  obtain ⟨_, hp, _⟩ := install_pending_announced hc
+  subst hcs
+  obtain ⟨_, _, hpend, hv⟩ := nextRun_inv hrun hep hk
+  constructor
+  · intro hlt; rw [hv, if_pos hlt]
+  · intro h1 h2
+    have hn : ¬ (k < cs.validators.length / 2) := by omega
+    have h0 : ¬ (cs.validators.length / 2 = 0) := by omega
+    rw [if_neg hn, if_neg h0] at hv
+    exact ⟨by rw [hv]; exact hp, by rw [hv]; exact hpend⟩
+
+/-! non-vacuity: epoch 10, a client installed at epoch header 20 with the set {1,2,3} in force while the header announces
+{3,4,5,6,7}: header 21 (validator 1) is verified by the old set and triggers the switch, header 22 sealed by the newly
+joined validator 5 is accepted and the announced list is in force; the retired validator 1 can no longer seal 22. -/
+namespace Witness
+def rotClient : ClientState := client 10 1000000 [1, 2, 3] (hdr 20 3 2 100 [3, 4, 5, 6, 7])
+
+example : (match run Fix.fixed env rotClient [(0, hdr 21 1 2 103), (0, hdr 22 5 2 106)] with
+      | .ok s => some (s.1.validators, s.2.pending)
+      | _ => none) = some ([3, 4, 5, 6, 7].map addrBytes, [3, 4, 5, 6, 7].map addrBytes)
+    ∧ (match run Fix.fixed env rotClient [] with | .ok s => some s.2.pending | _ => none) = some ([3, 4, 5, 6, 7].map addrBytes)
+    ∧ (run Fix.fixed env rotClient [(0, hdr 21 1 2 103), (0, hdr 22 1 1 106)]).isOk = false
+    ∧ (run Fix.fixed env rotClient [(0, hdr 21 1 2 103), (0, hdr 22 2 1 106)]).isOk = false := by
+  refine ⟨by decide +kernel, by decide +kernel, by decide +kernel, by decide +kernel⟩
+end Witness
+
+end TM.Bsc
+
